@@ -399,17 +399,8 @@ fn strat_pos() -> BoxedStrategy<PosCase> {
 }
 
 fn strat_bad() -> BoxedStrategy<Bad> {
-  (gens::depth(), 0u64..1000, 0u8..4)
-    .prop_map(|(depth, k, how)| {
-      let n = lattice::n_hash(depth);
-      let hash = match how {
-        0 => n + (k % 2),
-        1 => 2 * n + k,
-        2 => u64::MAX - k,
-        _ => n + k,
-      };
-      Bad { depth, hash }
-    })
+  (gens::depth(), gens::invalid_hash_parts())
+    .prop_map(|(depth, (how, a, b))| Bad { depth, hash: gens::make_invalid_hash(lattice::n_hash(depth), 2 * depth as u32, how, a, b) })
     .boxed()
 }
 
